@@ -261,14 +261,23 @@ def newStream (w : World) (h : Nat) (loc rem : Addr) : (Nat × Nat) × World :=
   let (f, w) := w.newFcPair w.cfg.tcpCap
   ((c, f), w.setHost h (fun hs => { hs with socks := hs.socks ++ [{ loc := loc, rem := rem, chan := c, fcW := f }] }))
 
+/-- `Tcp::close_stream_half` on the stream table: decrement the half-close count of the entry with
+    that address pair and remove it when it reaches zero. Returns the channel whose sender went away. -/
+def closeHalfList (socks : List Sock) (loc rem : Addr) : List Sock × Option Nat :=
+  match socks.findIdx? (fun s => s.loc == loc && s.rem == rem) with
+  | none => (socks, none)
+  | some i =>
+    let s := socks.getD i default
+    if s.refCt ≤ 1 then (socks.eraseIdx i, some s.chan)
+    else (setAt socks i (fun s => { s with refCt := s.refCt - 1 }), none)
+
 /-- `Tcp::close_stream_half` -/
 def closeStreamHalf (w : World) (h : Nat) (loc rem : Addr) : World :=
-  match findSock (w.host! h) loc rem with
+  let (socks', gone) := closeHalfList (w.host! h).socks loc rem
+  let w := w.setHost h (fun hs => { hs with socks := socks' })
+  match gone with
+  | some c => w.setChan c (fun ch => { ch with txAlive := false })
   | none => w
-  | some i =>
-    let s := (w.host! h).socks.getD i default
-    if s.refCt ≤ 1 then w.removeSock h loc rem
-    else w.setHost h (fun hs => { hs with socks := setAt hs.socks i (fun s => { s with refCt := s.refCt - 1 }) })
 
 /-- `StreamSocket::buffer`'s drain loop: move contiguous segments from the reorder buffer into the
     channel.  Returns `(buf, recvSeq, chanItems, rst?)`. -/
